@@ -22,8 +22,10 @@ EXPLANATION = (
     "(reorder, diagonal, trace, pair, hyper-contraction, outer product, inner product, scalar factor, general-space "
     "indices, look-alike names, nested inner contraction from the cache) evaluate to sum_contracted prod operands in "
     "target order (einsum) / by labels (libtensor), incl. target indices that sit on two or three operands of one "
-    "contraction (elementwise products); a missing inner contraction raises, libtensor partial traces are refused with "
-    "NotImplementedError. R17b: format_contraction, format_scaling_comment, "
+    "contraction (elementwise products), and numbered index names (i3, a12, k4 next to k; F54): the einsum subscripts "
+    "are single letters, one per index of the contraction (the emitted text is executed, 52 distinct indices are served "
+    "with distinct letters, 53 refused with NotImplementedError), libtensor labels are the names; a missing inner "
+    "contraction raises, libtensor partial traces are refused with NotImplementedError. R17b: format_contraction, format_scaling_comment, "
     "format_prefactor refuse an unknown backend with NotImplementedError and _format_python_prefactor/"
     "_format_cpp_prefactor refuse numbers outside integer/rational/sqrt/products; the scaling comment is a one-line "
     "comment of the backend. R17c: decision table of translate_adcc_names / translate_libadc_names over configured and "
@@ -38,23 +40,38 @@ EXPLANATION = (
     "and limits, the builder is selected by the flag, non-Expr input is refused, schemes with more than one outer "
     "contraction are refused, and the whole program (all symmetry classes, all terms, pure-number terms, inner "
     "contractions before the outer one) evaluates to sum_classes O_class(sum_terms prefactor * symbols * contraction) "
-    "for both backends and both builders, on four hand-built scenarios and on pseudo-random terms with closed schemes "
-    "(20 quick / 120 thorough). R17f: unoptimized_contraction evaluated on terms with exponents, deltas, symbols, "
+    "for both backends and both builders, on hand-built scenarios (incl. tensors without indices alone, next to numbers "
+    "and symbols, squared, next to a contraction: a scalar tensor is an operand of the program, F55) and on "
+    "pseudo-random terms with closed schemes (20 quick / 120 thorough). R17f: unoptimized_contraction evaluated on terms with exponents, deltas, symbols, "
     "spin yields one hyper-contraction whose operand list is the term's tensors/deltas exponent-many times (names and "
     "indices aligned) with the requested target indices, and sums every index that is not a requested target index - "
     "also one that occurs only once (external_indices); divisions are refused. R17h: exploit_perm_sym on expressions "
     "that contain a contribution several times (duplicates up to contracted-index names): the returned classes "
     "re-expand to the expression, no term twice (term worlds and permutation oracle of C10). Reference behaviour "
-    "after the repairs F35-F37, F41: exact numbers never equal floats (sympy >= 1.13; sqrt prefactors are emitted and "
+    "after the repairs F35-F37, F41, F54, F55: exact numbers never equal floats (sympy >= 1.13; sqrt prefactors are emitted and "
     "executed end to end), symbols with exponents that are not positive integers are refused with "
     "NotImplementedError (table and end to end), targets given explicitly sum single-occurrence indices (hand-built "
-    "and pseudo-random non-Einstein terms, rule-side model of Contraction(..., external_indices)). A sum over the axes "
+    "and pseudo-random non-Einstein terms, rule-side model of Contraction(..., external_indices)). "
+    "R17i: the operand names (Obj.longname, evaluated together with the library's tensor constructors, Obj.base/space "
+    "and the tensor_names predicates, for default and renamed tensor names, use_default_names False/True) as a decision "
+    "table against names stated independently: ADC amplitude vectors are u{l|r}{n} with n the number of the block in "
+    "the vector of its ADC variant, by enumeration of the excitation classes of PP (ph, 2p2h, ..), IP (h, 2h1p, ..), EA "
+    "(p, 2p1h, ..), DIP (2h, 3h1p, ..) and DEA (2p, 3p1h, ..) up to 6 (thorough 8) indices, left/right by the "
+    "configured name, either index placement, squared, spin labelled, other tensor class; t-amplitudes "
+    "<base><number of upper indices>[_<order/cc>] for ranks 1-3 (unequal upper/lower refused with RuntimeError); "
+    "densities <base>0[_<order>]_<block> (unequal refused); t2eri_<n>, t2sq, every other tensor <name>_<block> in the "
+    "tensor's index order, look-alike names of the special tensors are ordinary tensors, deltas d_<block>, symbols "
+    "have no operand name. A sum over the axes "
     "of a single tensor has no libtensor expression and has to be refused. Also R16a/R16b/R16g (scheme shape and "
     "closure, owned by C16) and R10a-c (conservation law of exploit_perm_sym, owned by C10), which the emitted "
     "program depends on.")
 ASSUMPTIONS = [
-    "optimize_contractions, exploit_perm_sym, term_memory_requirements and Obj.longname are black boxes here: "
-    "generate_code is evaluated on valid schemes/symmetry classes built by the rule (C16 / C15 decide the builders)",
+    "optimize_contractions, exploit_perm_sym and term_memory_requirements are black boxes here: "
+    "generate_code is evaluated on valid schemes/symmetry classes built by the rule (C16 / C15 decide the builders); "
+    "Obj.longname is decided separately as a name table (R17i, R17g) and enters the end-to-end scenarios as that table",
+    "R17i: amplitude blocks whose numbers of occupied and virtual indices differ by more than two belong to none of "
+    "the five ADC variants; their names are not decided. The tensor's index order (block string) is taken from the "
+    "library's own constructors (canonical ordering is decided by the tensor properties, not here)",
     "bounded: the tables of contractions, prefactors, symmetries and the pseudo-random terms listed in the evidence; "
     "index ranges 2 (occ, general) and 3 (virt); one fixed pseudo-random value per tensor element",
     "libtensor semantics assumed by the interpreter: contract(l, ...) sums the listed labels over the product of any "
@@ -486,6 +503,20 @@ def contraction_cases(w, cname):
     add("only scalar factors", ["c0", "c1"], [(), ()], ())
     add("double diagonal A_iaia -> ia", ["A_ovov"], [(i, a, i, a)], (i, a))
     add("transposition A_ij -> ji", ["A_oo"], [(i, j)], (j, i))
+    # numbered index names (what get_generic_indices / wicks hand out): einsum subscripts have to be single letters,
+    # one letter per index of the contraction (F54); libtensor labels are the names
+    i3, j3, k4, l4, k12, i1, i2 = w(["i3", "j3", "k4", "l4", "k12", "i1", "i2"])
+    a3, b3, c3, d3, a12 = w(["a3", "b3", "c3", "d3", "a12"])
+    add("numbered names, reorder x_a3i3 -> i3a3", ["x_vo"], [(a3, i3)], (i3, a3))
+    add("numbered names, identity x_i3a3", ["x_ov"], [(i3, a3)], (i3, a3))
+    add("numbered names, pair A_i3j B_jk12", ["A_oo", "B_oo"], [(i3, j), (j, k12)], (i3, k12))
+    add("numbered names, inner product", ["A_oovv", "B_oovv"], [(k4, l4, c3, d3), (k4, l4, c3, d3)], ())
+    add("numbered names next to their letters i, i1, i2", ["A_oo", "B_oo"], [(i, i1), (i1, i2)], (i, i2))
+    add("numbered names i1 i2 i3 j3 of one letter", ["A_oo", "B_oo", "C_oo"], [(i1, i2), (i2, i3), (i3, j3)], (j3, i1))
+    add("numbered names, eri and fock", [f"{FOCK}_ov", f"{ERI}_ovov"], [(j3, b3), (i3, a3, j3, b3)], (i3, a3))
+    add("numbered names, elementwise and outer", ["A_ov", "B_ov"], [(i3, a3), (i3, a12)], (i3, a12, a3))
+    inner_n = contraction(cname, 6, ["A_oo", "B_ov"], [(i3, k4), (k4, a3)], (i3, l4))
+    add("numbered names, nested inner contraction", [cname(6), "C_ov"], [inner_n.attrs["target"], (i1, a3)], (i3, i1), {cname(6): inner_n})
     # nested: the first operand is the result of an earlier contraction
     inner = contraction(cname, 7, ["A_oo", "B_ov"], [(i, j), (j, a)], (i, l))
     add("nested inner contraction", [cname(7), "C_ov"], [inner.attrs["target"], (l, a)], (i, l), {cname(7): inner})
@@ -514,6 +545,15 @@ def emitted_value(text, env, backend, target):
         return em.as_table(em.run_expression(text, env, backend), target, backend), None
     except em.EvalError as e:
         return None, str(e)
+
+
+def em_subscripts_ok(text, count):
+    """The einsum subscript string of ``text`` consists of single letters, ``count`` distinct ones."""
+    import re
+    m = re.search(r'einsum\("([^"]*)"', text)
+    if not m or not re.fullmatch(r"[A-Za-z,]*->[A-Za-z]*", m.group(1)):
+        return False
+    return len(set(m.group(1)) - set(",->")) == count
 
 
 def r17a(ctx):
@@ -567,7 +607,19 @@ def r17a(ctx):
         ctx.check(rule, fn, bool(outs) and all(o.kind == "raise" for o in outs), f"{backend}: unknown inner contraction refused",
                   f"{backend}: an inner contraction that was never emitted is silently used as an operand: {outs}",
                   key=f"{backend} cache miss")
-    ctx.floor(rule, "contractions executed", n, 50)
+    ctx.floor(rule, "contractions executed", n, 68)
+    # einsum: a contraction with more distinct indices than letters has no subscript string: refused, 52 are served
+    for count, served in ((52, True), (53, False)):
+        many = w([f"i{k}" for k in range(1, 27)] + [f"a{k}" for k in range(1, count - 25)])
+        c = contraction(cname, 65, ["A_big", "B_big"], [many[:30], many[20:]], (), external=())
+        sx = make_sx(ctx, f"format_contraction[{count} indices]")
+        outs = sx.run(fn, lambda: dict(contraction=c, contraction_cache={}, backend="einsum"))
+        text, _ = concrete(outs)
+        ok = refused(outs) if not served else (text is not None and em_subscripts_ok(text, count))
+        ctx.check(rule, fn, ok, f"einsum: {count} distinct indices " + ("served with distinct letters" if served else "refused with NotImplementedError"),
+                  f"format_contraction(einsum): a contraction over {count} distinct numbered indices " +
+                  ("is not emitted with one letter per index" if served else "has to be refused with NotImplementedError (52 letters)") +
+                  f", but: {[o.value if o.kind == 'return' else 'raises ' + str(o.exc) for o in outs][:1]}", key=f"einsum {count} indices")
     # libtensor: documented refusals
     i, j, a, b = w("ijab")
     sx = make_sx(ctx, "format_contraction[partial trace]")
@@ -961,6 +1013,20 @@ def pipelines(ctx, w, cname):
                                 ("sum_ijab A_ia B_jb -> number", [("A", (i, a), 1), ("B", (j, b), 1)], "", ())):
         v = term_rec(w, SNum(Fraction(-3, 2)), [], tens)
         out.append((lab, Pipeline(ctx, w, cname, tstr, None, [((), [v])], {id(v): closed_scheme(cname, 100 + 10 * len(out), term_operands(v), tg)}, tg)))
+    # 7: tensors without indices (F55): a scalar tensor is an operand of the program, alone, next to numbers/symbols,
+    # next to another scalar tensor and next to a contraction
+    e1 = term_rec(w, SNum(2), [], [("E0", (), 1)])
+    e2 = term_rec(w, SNum(Fraction(-1, 2)), [("c", 1)], [("E0", (), 1), ("F0", (), 2)])
+    e3 = term_rec(w, SNum(3), [("c", 2)], [])
+    e4 = term_rec(w, SNum(Fraction(1, 3)), [], [("E0", (), 1), ("A", (i, a), 1), ("B", (i, a), 1)])
+    out.append(("scalar tensor 2 E0", Pipeline(ctx, w, cname, "", None, [((), [e1])],
+                                                {id(e1): closed_scheme(cname, 300, term_operands(e1), ())}, ())))
+    out.append(("scalar tensors -c/2 E0 F0^2 + 3 c^2 + E0 A_ia B_ia / 3", Pipeline(
+        ctx, w, cname, "", None, [((), [e2, e3, e4])],
+        {id(e2): closed_scheme(cname, 310, term_operands(e2), ()), id(e4): closed_scheme(cname, 320, term_operands(e4), ())}, ())))
+    e5 = term_rec(w, SNum(-2), [], [("E0", (), 1), ("A", (i, a), 1)])
+    out.append(("scalar tensor times tensor -2 E0 A_ia -> ai", Pipeline(ctx, w, cname, "ai", None, [((), [e5])],
+                                                                        {id(e5): closed_scheme(cname, 330, term_operands(e5), (a, i))}, (a, i))))
     out.append(("exponent", Pipeline(ctx, w, cname, "ib", None, [((), [t9])], {id(t9): [g0]}, (i, b),
                                      max_itmd_dim=7, max_n_simultaneous_contracted=5)))
     return out
@@ -1147,7 +1213,8 @@ def check_pipeline(ctx, rule, fn, label, pl):
         builder = "optimize_contractions" if optimize else "unoptimized_contraction"
         other = "unoptimized_contraction" if optimize else "optimize_contractions"
         want_b = []
-        for t in (t for _, ts in pl.classes for t in ts if t.attrs["idx"]):
+        # every term that holds a tensor or delta (with or without indices) gets a scheme; pure number/symbol terms do not
+        for t in (t for _, ts in pl.classes for t in ts if t.attrs["idx"] or term_operands(t)):
             d = dict(term=t, target_indices=sep_free, target_spin=spin_free)
             if optimize:
                 d.update(max_itmd_dim=pl.opts.get("max_itmd_dim"),
@@ -1360,8 +1427,177 @@ def r17h(ctx):
     ctx.floor(rule, "expressions with duplicate terms", n, 5)
 
 
+# ------------------------------------------------------------------------------- R17i
+
+# the first excitation class (holes, particles) of the five ADC variants; class n has n - 1 further particle-hole pairs
+ADC_VARIANTS = {"pp": (1, 1), "ip": (1, 0), "ea": (0, 1), "dip": (2, 0), "dea": (0, 2)}
+OCC_NAMES, VIRT_NAMES, GEN_NAMES = "ijklmno", "abcdefgh", "pqrs"
+
+
+def amplitude_blocks(max_indices):
+    """[(variant, class number n, holes, particles)]: every block of the amplitude vectors of the five ADC variants with
+    at most ``max_indices`` indices.  The n-th block of the vector of a variant is addressed as u{l|r}{n}."""
+    out = []
+    for variant, (h1, p1) in ADC_VARIANTS.items():
+        n = 1
+        while h1 + p1 + 2 * (n - 1) <= max_indices:
+            out.append((variant, n, h1 + n - 1, p1 + n - 1))
+            n += 1
+    return out
+
+
+def _longname_world(ctx, renamed):
+    from . import c11
+    return c11.TensorWorld(ctx.model, renamed)
+
+
+def _power(tensor, exponent):
+    """tensor**exponent as sympy holds it: a Pow with args (base, exponent)."""
+    from ..symex import Obj as _Obj
+    p = _Obj(None, f"<{tensor.name}**{exponent}>")
+    p.attrs.update(_classes=("Pow",), args=(tensor, exponent), is_number=False)
+    return p
+
+
+def _indices_of(letters, spin=None):
+    from . import c11
+    return tuple(c11.mk_index(ch, None, spin[k] if spin else "") for k, ch in enumerate(letters))
+
+
+def r17i(ctx):
+    """Obj.longname, the operand names of the emitted program, as a decision table: the library's own tensor
+    constructors and Obj.longname / Obj.base / Obj.space / the tensor_names predicates are evaluated on every kind of
+    object; the expected names are stated here independently (block of the amplitude vector by enumeration of the
+    excitation classes of the five ADC variants; t-amplitudes by the number of upper indices and the order; densities
+    by order and block; t2eri; other tensors by block)."""
+    rule = "R17i"
+    from . import c11
+    from ..symex import Obj as _Obj
+    fn = ctx.model.fn("expr_container:Obj.longname")
+    thorough = ctx.tier == "thorough"
+    worlds = [("default names", None, dict(left="X", right="Y", t="t", p="p", eri="V")),
+              ("renamed tensors", {"left_adc_amplitude": "Lv", "right_adc_amplitude": "Rv", "gs_amplitude": "amp",
+                                   "gs_density": "rho", "eri": ERI, "fock": FOCK},
+               dict(left="Lv", right="Rv", t="amp", p="rho", eri=ERI))]
+    n_amp = n_other = 0
+
+    def name_of(w, sympy_obj, default):
+        outs = w.sx.run(fn, lambda: dict(self=w.container(sympy_obj), use_default_names=default))
+        if len(outs) != 1:
+            return f"<{len(outs)} outcomes>"
+        return outs[0].value if outs[0].kind == "return" else f"<raises {outs[0].exc}>"
+
+    def build(w, kind, name, upper, lower, spin=None, bks=0):
+        up = _indices_of(upper, spin[:len(upper)] if spin else None)
+        lo = _indices_of(lower, spin[len(upper):] if spin else None)
+        if kind == "NonSymmetricTensor":
+            return w.construct(kind, name, [up + lo], None)[0]
+        return w.construct(kind, name, [up, lo], bks)[0]
+
+    def block_of(w, tensor):
+        return "".join(x.attrs["space"][0] for x in w.read_idx(tensor))
+
+    def decide(w, tag, what, sympy_obj, want, key, defaults=(False, True)):
+        for default in defaults:
+            exp = want[default] if isinstance(want, dict) else want
+            got = name_of(w, sympy_obj, default)
+            ctx.check(rule, fn, got == exp, f"{tag}: {what} -> {exp}" + (" (default names)" if default else ""),
+                      f"Obj.longname(use_default_names={default}) [{tag}]: {what} is named `{got}` in the generated code, expected `{exp}`",
+                      key=f"{key} {tag} default={default}")
+
+    for tag, renamed, nm_ in worlds:
+        w = _longname_world(ctx, renamed)
+        # ---- ADC amplitude vectors: block number by enumeration of the excitation classes
+        for variant, n, holes, parts in amplitude_blocks(8 if thorough else 6):
+            occ, virt = OCC_NAMES[:holes], VIRT_NAMES[:parts]
+            for side, lr in (("left", "l"), ("right", "r")):
+                for placement, (upper, lower) in (("virt upper", (virt, occ)), ("occ upper", (occ, virt))):
+                    t = build(w, "Amplitude", nm_[side], upper, lower)
+                    n_amp += 1
+                    decide(w, tag, f"{variant}-ADC {side} amplitude, {holes}h{parts}p block ({placement})", t, f"u{lr}{n}",
+                           key=f"amplitude {variant} {holes}h{parts}p {side} {placement}")
+            # squared amplitude, spin labelled amplitude, amplitude held as another tensor class: same operand
+            t = build(w, "Amplitude", nm_["right"], virt, occ)
+            decide(w, tag, f"{variant}-ADC right amplitude squared, {holes}h{parts}p", _power(t, 2), f"ur{n}",
+                   key=f"amplitude {variant} {holes}h{parts}p squared", defaults=(False,))
+            if holes + parts <= 4:
+                t = build(w, "Amplitude", nm_["left"], virt, occ, spin=("ab" * 4)[:holes + parts])
+                decide(w, tag, f"{variant}-ADC left amplitude with spin, {holes}h{parts}p", t, f"ul{n}",
+                       key=f"amplitude {variant} {holes}h{parts}p spin", defaults=(False,))
+                t = build(w, "NonSymmetricTensor", nm_["right"], occ, virt)
+                decide(w, tag, f"{variant}-ADC right amplitude (NonSymmetricTensor), {holes}h{parts}p", t, f"ur{n}",
+                       key=f"amplitude {variant} {holes}h{parts}p nonsym", defaults=(False,))
+        # ---- ground state amplitudes: <base><number of upper indices>[_<order and cc>]
+        base = nm_["t"]
+        for ext in ("", "1", "2", "3", "12", "cc", "1cc", "2cc"):
+            for rank in (1, 2, 3):
+                t = build(w, "Amplitude", base + ext, VIRT_NAMES[:rank], OCC_NAMES[:rank])
+                n_other += 1
+                decide(w, tag, f"t-amplitude {base + ext} of rank {rank}", t,
+                       {False: f"{base}{rank}" + (f"_{ext}" if ext else ""), True: f"t{rank}" + (f"_{ext}" if ext else "")},
+                       key=f"t-amplitude {ext or 'no order'} rank {rank}")
+        for upper, lower in (("a", "ij"), ("ab", "i"), ("", "ij")):
+            t = build(w, "Amplitude", base + "2", upper, lower)
+            n_other += 1
+            decide(w, tag, f"t-amplitude {base}2 with {len(upper)} upper and {len(lower)} lower indices", t, "<raises RuntimeError>",
+                   key=f"t-amplitude unequal {len(upper)}/{len(lower)}")
+        # ---- ground state densities: <base>0[_<order>]_<block>
+        base = nm_["p"]
+        for ext in ("", "1", "2", "12"):
+            for upper, lower in (("i", "j"), ("i", "a"), ("a", "i"), ("a", "b"), ("ij", "ab"), ("p", "q")):
+                t = build(w, "AntiSymmetricTensor", base + ext, upper, lower, bks=1)
+                sp = block_of(w, t)             # the block is read off the tensor's own index order
+                n_other += 1
+                decide(w, tag, f"density {base + ext} block {sp}", t,
+                       {False: f"{base}0_" + (f"{ext}_" if ext else "") + sp, True: "p0_" + (f"{ext}_" if ext else "") + sp},
+                       key=f"density {ext or 'no order'} {sp}")
+        t = build(w, "AntiSymmetricTensor", base + "2", "ij", "a")
+        decide(w, tag, f"density {base}2 with 2 upper and 1 lower index", t, "<raises RuntimeError>", key="density unequal")
+        # ---- t2eri_<n>, t2sq and every other tensor (name and block), look-alike names of the special tensors
+        rows = [("AntiSymmetricTensor", "t2eri3", "ij", "ka", "t2eri_3"), ("AntiSymmetricTensor", "t2eri12", "ij", "ka", "t2eri_12"),
+                ("AntiSymmetricTensor", "t2sq", "ia", "jb", "t2sq"),
+                ("AntiSymmetricTensor", nm_["eri"], "ij", "ab", f"{nm_['eri']}_oovv"), ("AntiSymmetricTensor", nm_["eri"], "ia", "jb", f"{nm_['eri']}_ovov"),
+                ("AntiSymmetricTensor", nm_["eri"], "pq", "rs", f"{nm_['eri']}_gggg"), ("AntiSymmetricTensor", "f", "i", "a", "f_ov"),
+                ("AntiSymmetricTensor", "f", "a", "i", "f_vo"), ("SymmetricTensor", "A", "ij", "ab", "A_oovv"),
+                ("NonSymmetricTensor", "B", "ia", "jp", "B_ovog"), ("NonSymmetricTensor", "B", "i", "", "B_o"),
+                ("AntiSymmetricTensor", "C", "ijk", "abc", "C_ooovvv"),
+                # look-alikes: a name that merely starts with / contains a special name is an ordinary tensor
+                ("Amplitude", nm_["right"] + "2", "a", "ij", f"{nm_['right']}2_voo"), ("Amplitude", "u" + nm_["left"], "a", "i", f"u{nm_['left']}_vo"),
+                ("Amplitude", nm_["t"] + "x", "ab", "ij", f"{nm_['t']}x_vvoo"), ("Amplitude", nm_["t"] + "2x", "a", "i", f"{nm_['t']}2x_vo"),
+                ("AntiSymmetricTensor", nm_["p"] + "x", "i", "a", f"{nm_['p']}x_ov"), ("AntiSymmetricTensor", nm_["p"] + "2cc", "i", "a", f"{nm_['p']}2cc_ov"),
+                ("AntiSymmetricTensor", "xt2eri3", "ij", "ka", "xt2eri3_ooov"), ("AntiSymmetricTensor", "t2sqx", "ia", "jb", "t2sqx_ovov")]
+        if renamed:      # the default literals carry no meaning once the tensors are renamed
+            rows += [("Amplitude", "X", "a", "ij", "X_voo"), ("Amplitude", "Y", "", "ij", "Y_oo"), ("Amplitude", "t2", "ab", "ij", "t2_vvoo"),
+                     ("AntiSymmetricTensor", "p2", "i", "a", "p2_ov"), ("Amplitude", "t1", "a", "ij", "t1_voo")]
+        for kind, name, upper, lower, want in rows:
+            t = build(w, kind, name, upper, lower)
+            # the block string is read off the tensor's own index order
+            sp_built = block_of(w, t)
+            if "_" in want and want.rsplit("_", 1)[1] and set(want.rsplit("_", 1)[1]) <= set("ovg"):
+                want = want.rsplit("_", 1)[0] + "_" + sp_built
+            n_other += 1
+            decide(w, tag, f"{kind} {name}^{upper}_{lower}", t, want, key=f"tensor {kind} {name} {upper}|{lower}")
+        t = build(w, "AntiSymmetricTensor", "f", "i", "a")
+        decide(w, tag, "f_ov cubed", _power(t, 3), "f_ov", key="tensor power", defaults=(False,))
+        # ---- deltas: one name per block (the literal is the interface R17a-R17e assume: d_<block>); symbols: no operand
+        seen = {}
+        for p_, q_ in (("i", "j"), ("a", "b"), ("i", "a"), ("p", "q")):
+            d = _Obj("sympy_objects:KroneckerDelta", f"<delta {p_}{q_}>")
+            d.attrs.update(args=_indices_of(p_ + q_), is_number=False)
+            sp = "".join(c11.space_name(ch)[0] for ch in p_ + q_)
+            n_other += 1
+            decide(w, tag, f"delta_{p_}{q_}", d, f"d_{sp}", key=f"delta {sp}")
+            seen[sp] = name_of(w, d, False)
+        s = _Obj(None, "<Symbol x>")
+        s.attrs.update(_classes=("Symbol",), name="x", is_number=False, args=())
+        decide(w, tag, "a symbol (no operand of a contraction)", s, None, key="symbol")
+    ctx.floor(rule, "amplitude blocks named", n_amp, 80)
+    ctx.floor(rule, "other objects named", n_other, 100)
+
+
 def run(ctx):
-    for r, f in (("R17a", r17a), ("R17b", r17b), ("R17c", r17c), ("R17d", r17d), ("R17e", r17e), ("R17f", r17f), ("R17g", r17g), ("R17h", r17h)):
+    for r, f in (("R17a", r17a), ("R17b", r17b), ("R17c", r17c), ("R17d", r17d), ("R17e", r17e), ("R17f", r17f), ("R17g", r17g), ("R17h", r17h),
+                 ("R17i", r17i)):
         if ctx.want(r):
             f(ctx)
     # the "Apply (1 +- P..) to:" operators come from exploit_perm_sym: its conservation law (R10a/R10b/R10c of C10)
